@@ -189,6 +189,59 @@ def fn_breakdown(js):
     return out
 
 
+def _lemmas_with_requires(src):
+    """(name, generics, params, requires-text) of every `proof fn` in src that has a requires clause"""
+    out = []
+    for m in re.finditer(r'proof fn (\w+)', src):
+        i = m.end()
+        gen = ''
+        if src[i] == '<':
+            j = src.index('>', i)
+            gen = src[i:j + 1]
+            i = j + 1
+        if src[i] != '(':
+            continue
+        depth = 0
+        j = i
+        while True:
+            ch = src[j]
+            if ch in '([{':
+                depth += 1
+            elif ch in ')]}':
+                depth -= 1
+                if depth == 0:
+                    break
+            j += 1
+        params = src[i + 1:j]
+        rest = src[j + 1:]
+        mm = re.match(r'\s*requires\b', rest)
+        if not mm:
+            continue
+        k = mm.end()
+        depth = 0
+        start = k
+        req = None
+        while k < len(rest):
+            ch = rest[k]
+            if ch in '([{':
+                if ch == '{' and depth == 0 and re.match(r'\s*$', rest[start:k].split('\n')[-1]) :
+                    # body starts (a `{` at the beginning of a line at depth 0)
+                    req = rest[start:k]
+                    break
+                depth += 1
+            elif ch in ')]}':
+                depth -= 1
+            elif depth == 0 and re.match(r'(ensures|decreases)\b', rest[k:]) and not (rest[k - 1].isalnum() or rest[k - 1] == '_'):
+                req = rest[start:k]
+                break
+            k += 1
+        if req is None or 'decreases' in req:
+            continue
+        # recursive lemmas (with a decreases clause) are skipped only if decreases precedes ensures
+        out.append((m.group(1), gen, params, req))
+    return out
+
+
 class UnitResult:
     pass
 
@@ -271,13 +324,24 @@ def check_unit(vc_path, tier='quick', sentinel=True, build_dir=None, pid=None):
         vx2, errs2 = run_vx(vc.job(u, sentinel=True))
         spath = os.path.join(bdir, 'sentinel.rs')
         stext, sranges, slabels = assemble(u, vx2, spath)
-        # plus a consistency sentinel over all prelude/spec axioms
-        stext = stext.replace('} // verus!\nfn main() {}\n', 'proof fn __vx_consistency()\n  ensures false, // [__sentinel]\n{ }\n} // verus!\nfn main() {}\n')
+        # plus a consistency sentinel over all prelude/spec axioms, and one sentinel per spec lemma
+        # that has a `requires`: same parameters and hypotheses, `ensures false`, empty body
+        lemma_sent = []
+        spec_src = '\n'.join(_read_fragment(f) for f in u.specs)
+        extra = 'proof fn __vx_consistency()\n  ensures false, // [__sentinel]\n{ }\n'
+        for name, gen, params, req in _lemmas_with_requires(spec_src):
+            lemma_sent.append(name)
+            extra += 'proof fn __sentinel_lemma_%s%s(%s)\n  requires %s\n  ensures\n    false, // [__sentinel_lemma:%s]\n{ }\n' % (name, gen, params, req.strip().rstrip(','), name)
+        stext = stext.replace('} // verus!\nfn main() {}\n', extra + '} // verus!\nfn main() {}\n')
         open(spath, 'w').write(stext)
         slabels = {}
+        lemma_lines = {}
         for i, l in enumerate(stext.split('\n'), 1):
             if l.rstrip().endswith('// [__sentinel]'):
                 slabels[i] = '__sentinel'
+            mm = re.search(r'// \[__sentinel_lemma:(\w+)\]\s*$', l)
+            if mm:
+                lemma_lines[i] = mm.group(1)
         scmd, sjs, sstderr, swall = run_verus(spath, flags)
         sblocks = parse_errors(sstderr if isinstance(sstderr, str) else '', spath)
         failed_sent = set()
@@ -308,7 +372,16 @@ def check_unit(vc_path, tier='quick', sentinel=True, build_dir=None, pid=None):
                         if s0 <= ln <= e0:
                             failed_idx.add(k)
         vacuous = [sent_ranges[k][2] for k in range(len(sent_ranges)) if k not in failed_idx]
-        r.sentinels = {'run': True, 'contracted': len(contracted), 'failed_as_required': len(contracted) - len(vacuous), 'vacuous': vacuous, 'axiom_consistency_sentinel_failed_as_required': n_axiom_sent, 'wall_s': round(swall, 2)}
+        failed_lemmas = set()
+        for b in sblocks:
+            if b['level'] != 'error':
+                continue
+            for ln in [b['primary']] + b['lines']:
+                if ln in lemma_lines:
+                    failed_lemmas.add(lemma_lines[ln])
+        vac_lemmas = [n for n in lemma_sent if n not in failed_lemmas]
+        vacuous += ['lemma ' + n for n in vac_lemmas]
+        r.sentinels = {'run': True, 'lemma_hypothesis_sentinels': len(lemma_sent), 'contracted': len(contracted), 'failed_as_required': len(contracted) + len(lemma_sent) - len(vacuous), 'vacuous': vacuous, 'axiom_consistency_sentinel_failed_as_required': n_axiom_sent, 'wall_s': round(swall, 2)}
         if vacuous or not n_axiom_sent:
             r.status = 'undecided'
             r.reasons.append('vacuity: sentinel `ensures false` verified for %s%s' % (vacuous, '' if n_axiom_sent else ' and for the axiom-consistency sentinel'))
